@@ -29,7 +29,7 @@ def parse_table(text):
             accs.append({"fn": m.group(1), "loc": m.group(2), "write": m.group(3) == "true", "atomic": m.group(4) == "true",
                          "held": m.group(5), "prepub": m.group(6) == "true", "at": m.group(7)})
             continue
-        m = re.match(r"^\s+(fields|skipped|spawned|note):\s*(.*)$", line)
+        m = re.match(r"^\s+(fields|skipped|spawned|functions|note):\s*(.*)$", line)
         if m:
             hdr.setdefault(m.group(1), []).append(m.group(2).strip())
     return hdr, accs
@@ -69,10 +69,10 @@ def lockset_static(relfile, typename, scope_fns, ignore_fields=(), label=None, m
         if n_raw != len(accs):
             problems.append(("tie", "glbfacts output for %s not understood (%d of %d records parsed)" % (label, len(accs), n_raw),
                              {"broken": broken, "glbfacts": out[-3000:]}))
-        fns_seen = {a["fn"] for a in accs}
+        fns_seen = {x.strip() for s in hdr.get("functions", []) for x in s.split(",") if x.strip()} | {a["fn"] for a in accs}
         missing = [f for f in scope_fns if f not in fns_seen]
         if missing:
-            problems.append(("tie", "lock discipline of %s: scope function(s) %s have no accesses in the extracted table "
+            problems.append(("tie", "lock discipline of %s: scope function(s) %s not found among the functions of the type "
                              "(renamed or removed? the declared scope is stale)" % (label, ", ".join(missing)),
                              {"broken": broken, "missing_scope_functions": missing, "functions_seen": sorted(fns_seen)}))
         text = ("From Coq Require Import List String Bool.\nImport ListNotations.\n"
